@@ -28,6 +28,11 @@ ASM_LINE_REGEX = re.compile(
     r"^(?P<label>[\w@]*)\s+(?P<mnemonic>\w*)\s+(?P<operands>[\w\[\]><'\"@:,.#?$%^&*()=!+\-/]*)\s*;*(?P<comment>.*)$"
 )
 
+# Pattern to parse a line that defines a delimited string
+STRING_LINE_REGEX = re.compile(
+    r"^(?P<label>[\w@]*)\s+(?P<mnemonic>\w*)\s+(?P<delimiter>\S)(?P<string>.*?)(?P=delimiter)\s*;*(?P<comment>.*)$"
+)
+
 # Pattern to recognize a direct value
 DIR_REGEX = re.compile(
     r"^<(?P<value>.*)"
@@ -125,22 +130,19 @@ class Statement(object):
                 self.comment = data.group("comment")
                 raise ParseError("[{}] invalid mnemonic".format(self.mnemonic), line)
             if self.instruction.is_string_define:
-                original_operand = data.group("operands")
-                if data.group("comment"):
-                    original_operand = "{} {}".format(data.group("operands"), data.group("comment").strip())
-                if not original_operand:
+                string_data = STRING_LINE_REGEX.match(line)
+                if not string_data:
                     raise ParseError("[{}] requires a delimited string".format(self.mnemonic), line)
-                starting_symbol = original_operand[0]
-                ending_location = original_operand.find(starting_symbol, 1)
+                delimiter = string_data.group("delimiter")
                 try:
                     self.operand = Operand.create_from_str(
-                        original_operand[0:ending_location + 1].strip(),
+                        "{}{}{}".format(delimiter, string_data.group("string"), delimiter),
                         self.instruction
                     )
                 except (OperandTypeError, ValueTypeError) as error:
                     raise ParseError(str(error), line)
                 self.original_operand = copy(self.operand)
-                self.comment = original_operand[ending_location + 2:].strip() or ""
+                self.comment = string_data.group("comment").strip() or ""
                 self.is_empty = False
             else:
                 try:
